@@ -193,12 +193,16 @@ class Normalizer(ast.NodeTransformer):
 
     def visit_Assign(self, n: ast.Assign):
         self.generic_visit(n)
-        if len(n.targets) == 1 and isinstance(n.targets[0], ast.Name) and isinstance(n.value, ast.IfExp):
-            # N7: `x = A if c else B`  ->  if c: x = A / else: x = B
+        tg = n.targets[0] if len(n.targets) == 1 else None
+        plain = isinstance(tg, ast.Name) or (isinstance(tg, ast.Tuple) and all(isinstance(e, ast.Name) for e in tg.elts))
+        if plain and isinstance(n.value, ast.IfExp):
+            # N7: `x = A if c else B`  ->  if c: x = A / else: x = B      (also `a, b = A if c else B`; arms that are
+            # conditional expressions themselves become the nested statements)
             self.count += 1
-            a = ast.copy_location(ast.Assign(targets=[n.targets[0]], value=n.value.body, type_comment=None), n)
-            b = ast.copy_location(ast.Assign(targets=[ast.Name(id=n.targets[0].id, ctx=ast.Store())], value=n.value.orelse, type_comment=None), n)
-            node = ast.If(test=n.value.test, body=[a], orelse=[b])
+            a = ast.copy_location(ast.Assign(targets=[copy.deepcopy(tg)], value=n.value.body, type_comment=None), n)
+            b = ast.copy_location(ast.Assign(targets=[copy.deepcopy(tg)], value=n.value.orelse, type_comment=None), n)
+            a2, b2 = self.visit_Assign(a), self.visit_Assign(b)
+            node = ast.If(test=n.value.test, body=[a2], orelse=[b2])
             return ast.fix_missing_locations(ast.copy_location(node, n))
         return n
 
@@ -897,9 +901,79 @@ def fuse_generator_loops(tree: ast.Module) -> int:
     return count
 
 
+# --------------------------------------------------------------------------- N18: a call through a small constant table of functions
+def expand_table_dispatch(tree: ast.Module) -> int:
+    """N18:  _ENCODERS = {str: enc_text, dict: enc_map}
+             r = _ENCODERS.get(type(m), enc_any)(m)     ->     r = enc_text(m) if type(m) is str else (enc_map(m) if type(m) is dict else enc_any(m))
+    for a module-level dict display of at most 8 entries bound once, never stored into, whose keys are plain names or
+    constants and whose values are plain names, looked up with `.get(key, default)` (default a plain name) or `[key]` and
+    called at once.  (`is` for class keys — a dict finds a class by identity —, `==` for constants.)"""
+    tables, binds = {}, {}
+    for st in tree.body:
+        tg = st.targets[0] if isinstance(st, ast.Assign) and len(st.targets) == 1 else (st.target if isinstance(st, ast.AnnAssign) else None)
+        v = getattr(st, "value", None)
+        if isinstance(tg, ast.Name):
+            binds[tg.id] = binds.get(tg.id, 0) + 1
+            if isinstance(v, ast.Dict) and 1 <= len(v.keys) <= 8 and all(isinstance(k, (ast.Name, ast.Constant)) for k in v.keys) and all(isinstance(x, ast.Name) for x in v.values):
+                tables[tg.id] = v
+    for n in ast.walk(tree):
+        if isinstance(n, ast.Name) and isinstance(n.ctx, (ast.Store, ast.Del)) and n.id in tables and binds.get(n.id, 0) >= 1:
+            binds[n.id] += 0
+        if isinstance(n, ast.Subscript) and isinstance(n.ctx, (ast.Store, ast.Del)) and isinstance(n.value, ast.Name):
+            tables.pop(n.value.id, None)
+        if isinstance(n, ast.Call) and isinstance(n.func, ast.Attribute) and isinstance(n.func.value, ast.Name) and n.func.attr in ("update", "setdefault", "pop", "clear", "popitem", "__setitem__"):
+            tables.pop(n.func.value.id, None)
+    stores = {}
+    for n in ast.walk(tree):
+        if isinstance(n, ast.Name) and isinstance(n.ctx, (ast.Store, ast.Del)):
+            stores[n.id] = stores.get(n.id, 0) + 1
+    tables = {k: v for k, v in tables.items() if stores.get(k, 0) == 1}
+    if not tables:
+        return 0
+    count = 0
+
+    def simple(x):
+        return isinstance(x, (ast.Name, ast.Constant)) or (isinstance(x, ast.Attribute) and simple(x.value)) or (isinstance(x, ast.Call) and isinstance(x.func, ast.Name) and x.func.id == "type" and len(x.args) == 1 and not x.keywords and simple(x.args[0]))
+
+    class D(ast.NodeTransformer):
+        def visit_Call(self, node: ast.Call):
+            self.generic_visit(node)
+            nonlocal count
+            f = node.func
+            tbl = key = default = None
+            if isinstance(f, ast.Call) and isinstance(f.func, ast.Attribute) and f.func.attr == "get" and isinstance(f.func.value, ast.Name) and f.func.value.id in tables and len(f.args) == 2 and not f.keywords and isinstance(f.args[1], ast.Name):
+                tbl, key, default = tables[f.func.value.id], f.args[0], f.args[1]
+            elif isinstance(f, ast.Subscript) and isinstance(f.value, ast.Name) and f.value.id in tables:
+                tbl, key = tables[f.value.id], f.slice
+            if tbl is None or not simple(key) or not all(simple(a) for a in node.args) or any(k.arg is None or not simple(k.value) for k in node.keywords):
+                return node
+
+            def call_of(fn):
+                return ast.Call(func=ast.Name(id=fn.id, ctx=ast.Load()), args=[copy.deepcopy(a) for a in node.args], keywords=[copy.deepcopy(k) for k in node.keywords])
+
+            if default is not None:
+                out = call_of(default)
+            else:
+                # `TABLE[key](…)`: a miss raises KeyError — kept as the lookup itself on the last arm
+                out = copy.deepcopy(node)
+            for k, v in reversed(list(zip(tbl.keys, tbl.values))):
+                op = ast.Eq() if isinstance(k, ast.Constant) else ast.Is()
+                test = ast.Compare(left=copy.deepcopy(key), ops=[op], comparators=[copy.deepcopy(k)])
+                out = ast.IfExp(test=test, body=call_of(v), orelse=out)
+            count += 1
+            return ast.copy_location(out, node)
+
+    D().visit(tree)
+    if count:
+        ast.fix_missing_locations(tree)
+    return count
+
+
 def normalize(tree: ast.Module) -> int:
+    n18 = expand_table_dispatch(tree)
     nz = Normalizer()
     nz.visit(tree)
+    nz.count += n18
     for fn_ in [x for x in ast.walk(tree) if isinstance(x, (ast.FunctionDef, ast.AsyncFunctionDef))]:
         nz.count += _fuse_filter_loops(fn_)
         nz.count += _fold_named_conditions(fn_)
